@@ -529,6 +529,41 @@ func (s *Server) getWorkspaceResolved(docURI protocol.DocumentURI) *include.Reso
 	return s.GetResolved(docURI)
 }
 
+// getResolvedAround returns the resolved tree to search for the symbols of an open document,
+// seen from that document: the document's own journal (as just parsed) is the primary, and
+// when the tree is the workspace's, whose primary is the root journal, the root is listed
+// under its own path like every other file. Without this a request made from an included
+// file would attribute the root's symbols to the requesting file and lose that file's own.
+func (s *Server) getResolvedAround(docURI protocol.DocumentURI, current *ast.Journal) *include.ResolvedJournal {
+	resolved := s.getWorkspaceResolved(docURI)
+	if resolved == nil || s.workspace == nil || s.workspace.GetResolved() != resolved {
+		return resolved
+	}
+
+	currentPath := uriToPath(docURI)
+	rootPath := s.workspace.RootJournalPath()
+	if rootPath == "" || rootPath == currentPath || current == nil {
+		return resolved
+	}
+
+	view := include.NewResolvedJournal(current)
+	if resolved.Primary != nil {
+		view.Files[rootPath] = resolved.Primary
+		view.FileOrder = append(view.FileOrder, rootPath)
+	}
+	for path, journal := range resolved.Files {
+		if path != currentPath {
+			view.Files[path] = journal
+		}
+	}
+	for _, path := range resolved.FileOrder {
+		if path != currentPath {
+			view.FileOrder = append(view.FileOrder, path)
+		}
+	}
+	return view
+}
+
 func (s *Server) RootURI() string {
 	return s.rootURI
 }
